@@ -230,7 +230,7 @@ func checkC14(c *core.Ctx) []core.Floor {
 	for _, cs := range c14Causes {
 		fl = append(fl, core.Floor{Key: "cause_" + cs, Min: 5})
 	}
-	fl = append(fl, core.Floor{Key: "insert_failing_row_k1", Min: 5}, core.Floor{Key: "insert_failing_row_k>1", Min: 5}, core.Floor{Key: "update_overflow_k>1", Min: 1})
+	fl = append(fl, core.Floor{Key: "cause_update-fixed-width-overflow", Min: 5}, core.Floor{Key: "insert_failing_row_k1", Min: 5}, core.Floor{Key: "insert_failing_row_k>1", Min: 5}, core.Floor{Key: "update_overflow_k>1", Min: 1})
 	return fl
 }
 
@@ -260,12 +260,45 @@ func runC14(c *core.Ctx, drv string, idx int) {
 			add(proto.Op{K: "flush"}, meta{kind: "other"})
 		}
 	}
+	// a table whose rows sit at the size limit with NULLs in fixed-width
+	// columns: setting such a column grows the row by 1, 4 or 8 bytes
+	var fwFail *failStmt
+	if idx%3 == 0 {
+		ct := &proto.Stmt{Kind: "create", Table: "fw", Defs: []proto.ColDef{{Name: "k", Type: "int"}, {Name: "g", Type: "int"}, {Name: "n", Type: "int"}, {Name: "b", Type: "bigint"}, {Name: "f", Type: "boolean"}, {Name: "pad", Type: "varchar", Len: 255}}}
+		if f, _, _, err := h.DB.Apply(ct); f == "" && err == nil {
+			add(proto.Op{K: "stmt", Stmt: ct}, meta{kind: "stmt", st: ct})
+			t := h.DB.Table("fw")
+			ins := &proto.Stmt{Kind: "insert", Table: "fw"}
+			nrows := r.Range(2, 6)
+			kth := r.Range(2, nrows)
+			col := []string{"n", "b", "f"}[r.Intn(3)]
+			for i := 1; i <= nrows; i++ {
+				row := []proto.Val{proto.Int(int64(i)), proto.Int(1), proto.Null(), proto.Null(), proto.Null(), proto.Str("")}
+				if i == kth {
+					base := model.EncodedSize(t.Cols, row)
+					row[5] = proto.Str(longStr(r, model.MaxRowSize-base)) // exactly at the limit
+				} else {
+					row[5] = proto.Str(longStr(r, r.Intn(100)))
+				}
+				ins.Rows = append(ins.Rows, row)
+			}
+			if f, _, _, err := h.DB.Apply(ins); f == "" && err == nil {
+				add(proto.Op{K: "stmt", Stmt: ins}, meta{kind: "stmt", st: ins})
+				v := map[string]proto.Val{"n": proto.Int(7), "b": proto.Int(1 << 40), "f": proto.Bool(true)}[col]
+				fwFail = &failStmt{cause: "update-fixed-width-overflow", k: kth, n: nrows,
+					st: &proto.Stmt{Kind: "update", Table: "fw", Sets: []proto.SetItem{{Col: col, Val: v}}}}
+			}
+		}
+	}
 	add(proto.Op{K: "dump"}, meta{kind: "pre"})
 	nf := r.Range(1, 4)
 	var fails []*failStmt
 	for i := 0; i < nf; i++ {
 		cause := c14Causes[(idx+i*7+r.Intn(2)*3)%len(c14Causes)]
 		fs := genFailing(r, h, cause)
+		if i == 0 && fwFail != nil {
+			fs = fwFail
+		}
 		if fs == nil {
 			continue
 		}
